@@ -14,8 +14,11 @@
 package main
 
 import (
+	"bytes"
 	"context"
 	"encoding/json"
+	"errors"
+	"io"
 
 	"fmt"
 	"github.com/fxamacker/cbor/v2"
@@ -66,6 +69,7 @@ type clientOp struct {
 	Run  string `json:"run"`
 	Kind string `json:"kind"`
 	Emit bool   `json:"emit"`
+	Sig  bool   `json:"sig"` // exec: pass a signalsToStep channel that the caller leaves open
 }
 
 type faultSpec struct {
@@ -127,6 +131,10 @@ type result struct {
 	Terminals map[string]int `json:"terminals,omitempty"`
 	Received  []string       `json:"received,omitempty"`
 	StreamLen int            `json:"stream_len,omitempty"`
+	// client mode: calls still pending while the stream was still open, and what an independent strict decode of
+	// the (faulted) bytes written so far says: clean | waiting (an item is incomplete) | garbage (a decode error)
+	PendingOpen   []string `json:"pending_open,omitempty"`
+	StreamVerdict string   `json:"stream_verdict,omitempty"`
 }
 
 // ------------------------------------------------------------------ plugin under test
@@ -989,12 +997,20 @@ func (w *world) serverSession(res *result) {
 	res.Accepted, res.Terminals = map[string]int{}, map[string]int{}
 	role := func(r string) { w.s.SetRole(r) }
 	// reader: the client keeps reading and decodes what the server sends
+	var readerPaused chan struct{}
 	readerDone := make(chan struct{})
 	go func() {
 		defer close(readerDone)
 		role("env:reader")
 		dec := cbor.NewDecoder(sched.Duplex{In: w.s2c, Out: w.c2s})
 		for {
+			// a client that is slow to read: the script holds the reader back ("hold_reader" / "release_reader")
+			w.mu.Lock()
+			p := readerPaused
+			w.mu.Unlock()
+			if p != nil {
+				<-p
+			}
 			var m atp.DecodedRuntimeMessage
 			if err := dec.Decode(&m); err != nil {
 				return
@@ -1067,6 +1083,20 @@ func (w *world) serverSession(res *result) {
 			w.s.Emit(g, "e.eof", map[string]any{})
 			w.c2s.CloseWrite()
 			ended = true
+		case "hold_reader":
+			w.mu.Lock()
+			if readerPaused == nil {
+				readerPaused = make(chan struct{})
+			}
+			w.mu.Unlock()
+		case "release_reader":
+			w.mu.Lock()
+			if readerPaused != nil {
+				close(readerPaused)
+				readerPaused = nil
+			}
+			w.mu.Unlock()
+			w.s.WaitSettled(stepTimeout)
 		case "send", "partial":
 			b := clientMessage(op)
 			whole := true
@@ -1108,6 +1138,12 @@ func (w *world) serverSession(res *result) {
 		}
 	}
 	res.StreamLen = written
+	w.mu.Lock()
+	if readerPaused != nil {
+		close(readerPaused)
+		readerPaused = nil
+	}
+	w.mu.Unlock()
 	if !ended {
 		// the input always ends eventually
 		w.s.WaitSettled(stepTimeout)
@@ -1414,7 +1450,7 @@ func runClientScenario(sc scenario, res *result) {
 	for _, op := range sc.Ops {
 		switch op.Op {
 		case "exec":
-			rs := runSpec{ID: op.Run, Beh: "ok", Emit: op.Emit}
+			rs := runSpec{ID: op.Run, Beh: "ok", Emit: op.Emit, Sig: op.Sig}
 			w.sc.Runs = append(w.sc.Runs, rs)
 			w.spawnCaller(op.Run)
 			if version == 1 {
@@ -1505,6 +1541,17 @@ func runClientScenario(sc scenario, res *result) {
 	// the stream always ends eventually
 	if !outClosed {
 		w.s.WaitSettled(stepTimeout)
+		if sc.Fault != nil && !sc.Fault.Hello && (sc.Fault.Kind == "corrupt" || sc.Fault.Kind == "bitflip") {
+			res.StreamVerdict = independentStream(fs.stream, sc.Fault, version)
+			w.mu.Lock()
+			for id, e := range w.res {
+				if e.Returns == 0 {
+					res.PendingOpen = append(res.PendingOpen, id)
+				}
+			}
+			w.mu.Unlock()
+			sort.Strings(res.PendingOpen)
+		}
 		w.s.Emit(g, "f.close_out", map[string]any{})
 		w.s2c.CloseWrite()
 	}
@@ -1572,6 +1619,45 @@ func applyFault(p *sched.Pipe, f *faultSpec, base int64) {
 	case "bitflip":
 		p.FlipAt = base + f.At
 		p.FlipMask = 0x01
+	}
+}
+
+// independentStream decodes the bytes the scripted server has written so far, with the fault applied, the way a
+// strict stream decoder sees them: "garbage" if some item fails to decode, "waiting" if the last item is
+// incomplete, "clean" otherwise.
+func independentStream(stream []byte, f *faultSpec, version int64) string {
+	b := append([]byte{}, stream...)
+	if f.At >= 0 && f.At < int64(len(b)) {
+		m := byte(0xff)
+		if f.Kind == "bitflip" {
+			m = 0x01
+		}
+		b[f.At] ^= m
+	}
+	strict, err := cbor.DecOptions{ExtraReturnErrors: cbor.ExtraDecErrorUnknownField}.DecMode()
+	if err != nil {
+		panic(err)
+	}
+	dec := strict.NewDecoder(bytes.NewReader(b))
+	for {
+		var err error
+		if version == 1 {
+			var m atp.WorkDoneMessage
+			err = dec.Decode(&m)
+		} else {
+			var m atp.DecodedRuntimeMessage
+			err = dec.Decode(&m)
+		}
+		switch {
+		case err == nil:
+			continue
+		case err == io.EOF:
+			return "clean"
+		case errors.Is(err, io.ErrUnexpectedEOF):
+			return "waiting"
+		default:
+			return "garbage"
+		}
 	}
 }
 
